@@ -193,9 +193,17 @@ func genScope(r *rand.Rand, G, O []string) (kind string, present bool, val strin
 }
 
 // canonical order of refusal reasons (the first one names the violation key)
-var reasonOrder = []string{"grant-disabled", "token-unknown", "token-rotated", "token-expired", "foreign-client", "bad-credential", "client-not-registered-for-refresh", "scope-not-granted"}
+var reasonOrder = []string{"grant-disabled", "token-unknown", "token-rotated", "token-expired", "token-rotated-by-concurrent-request", "foreign-client", "bad-credential", "client-not-registered-for-refresh", "scope-not-granted",
+	// trouble at the storage boundary comes last: a reason of the statement proper names the violation key first
+	"storage-failed:GetClientByClientID", "storage-failed:AuthorizeClientIDSecret", "storage-failed:GetKeyByIDAndClientID", "storage-failed:TokenRequestByRefreshToken", "rotation-failed-in-storage"}
 
 func orderReasons(rs []string) []string {
-	slices.SortFunc(rs, func(a, b string) int { return slices.Index(reasonOrder, a) - slices.Index(reasonOrder, b) })
+	idx := func(a string) int {
+		if i := slices.Index(reasonOrder, a); i >= 0 {
+			return i
+		}
+		return len(reasonOrder)
+	}
+	slices.SortStableFunc(rs, func(a, b string) int { return idx(a) - idx(b) })
 	return rs
 }
